@@ -238,7 +238,9 @@ def run_tlc(module, cfg, workers=16, extra=(), timeout=3600, env=None, coverage=
                 r.coverage[nm] = (a[0] + d, a[1] + t)
         if not r.ok and r.violation is None:
             tail = "\n".join(p.stdout.strip().split("\n")[-40:])
-            raise TLCError("TLC failed on %s (rc=%s):\n%s" % (module, p.returncode, tail))
+            k = p.stdout.find("Error:")
+            first = p.stdout[k:k + 1500] if k >= 0 else ""
+            raise TLCError("TLC failed on %s (rc=%s):\n%s\n...\n%s" % (module, p.returncode, first, tail))
         return r
     finally:
         shutil.rmtree(scratch, ignore_errors=True)
